@@ -93,6 +93,10 @@ def _sidecar_content(g, level):
         else:
             keys = g.pick([["a", "b"], ["a", "b"], ["a", "c"], ["b"], ["a", "b", "c"]])
             cols[c] = {"Description": "lvl %s" % level, "HED": {k: _ann(g, g.chance(0.1)) for k in keys}}
+    if g.chance(0.25):
+        # a column of definitions, named after the level: the same definition name at two levels of one chain is a
+        # duplicate only in the merged sidecar
+        cols["defs_%s" % level] = {"Description": "definitions", "HED": {"d": "(Definition/%s, (%s))" % (g.pick(["DefA", "DefA", "DefB"]), g.pick(PLAIN))}}
     return cols
 
 
@@ -232,7 +236,10 @@ def generate(run_index, seed, tier):
     return {"files": files, "sidecars": sidecars, "decoys": decoys, "perms": [g.randrange(1 << 30) for _ in range(g.randint(1, 3))],
             "warnings": g.chance(0.5), "cli_opts": cli_opts,
             # where the dataset lives: directly in scratch, or below directories named like the excluded ones
-            "root_under": g.pick(["", "", "derivatives/pipeline", "code/sourcedata"])}
+            "root_under": g.pick(["", "", "derivatives/pipeline", "code/sourcedata"]),
+            # the caller configures an empty exclusion list: directories named like the default excluded ones take part
+            "exclude_empty": g.chance(0.12),
+            "edit_then_again": g.randrange(1, 1 << 30) if g.chance(0.25) else 0}
 
 
 def shrink(sc):
@@ -329,6 +336,50 @@ def _build_tree(root, sc):
 
 
 def execute(sc, script=None):
+    r = _execute_once(sc, script)
+    if sc.get("edit_then_again") and not r["violations"] and sc["sidecars"]:
+        # the user edits one sidecar in place and validates again in the same process (new objects, same paths)
+        sc2 = copy.deepcopy(sc)
+        g = Gen(sc["edit_then_again"])
+        target = g.pick(sc2["sidecars"])
+        target["content"] = {"trial_type": {"Description": "edited", "HED": {"a": g.pick(["Grren", "Blue", "(Red, Blue", "Square"]),
+                                                                           "b": g.pick(["Circle", "Redd"])}}}
+        r2 = _execute_once(sc2, script)
+        r2["probes"]["edited_in_place_and_validated_again"] = 1
+        for k, v in r["probes"].items():
+            r2["probes"][k] = r2["probes"].get(k, 0) + v
+        r2["digest"] = core.digest([r["digest"], r2["digest"]])
+        r2["steps"] = r.get("steps", 0) + r2.get("steps", 0)
+        return r2
+    return r
+
+
+def _execute_once(sc, script=None):
+    global EXCLUDED
+    if not sc.get("exclude_empty"):
+        return _execute(sc, script)
+    saved = EXCLUDED
+    sc = copy.deepcopy(sc)
+    keep = []
+    for d in sc["decoys"]:
+        if set(d["path"].split("/")[:-1]) & saved:
+            if "rows" in d and d["path"].endswith("_events.tsv"):
+                sc["files"].append({"path": d["path"], "ents": _entities(d["path"])[1], "rows": d["rows"]})
+            elif "content" in d and d["path"].endswith("events.json"):
+                sc["sidecars"].append({"path": d["path"], "ents": _entities(d["path"])[1], "level": "leaf", "content": d["content"]})
+            else:
+                keep.append(d)
+        else:
+            keep.append(d)
+    sc["decoys"] = keep
+    EXCLUDED = set()
+    try:
+        return _execute(sc, script)
+    finally:
+        EXCLUDED = saved
+
+
+def _execute(sc, script=None):
     W = _init()
     violations, probes, trace = [], {}, []
 
@@ -413,7 +464,8 @@ def execute(sc, script=None):
         out = {}
 
         def fn():
-            ds = W["BidsDataset"](root, schema=W["schema"])
+            ds = W["BidsDataset"](root, schema=W["schema"], exclude_dirs=[]) if sc.get("exclude_empty") \
+                else W["BidsDataset"](root, schema=W["schema"])
             grp = ds.get_tabular_group("events")
             applied = {}
             for p, obj in grp.datafile_dict.items():
@@ -482,8 +534,10 @@ def execute(sc, script=None):
             if (applied, got) != first:
                 viol("order-independence", "results differ between the sorted enumeration order and permutation %d" % oi, "order-dependent")
                 break
-    # ---- (4) CLI exit status
-    if not violations:
+    if sc.get("exclude_empty"):
+        probe("empty_exclusion_list")
+    # ---- (4) CLI exit status (the command line has no option for the exclusion list: default list only)
+    if not violations and not sc.get("exclude_empty"):
         sim = Sim(Decider(0), max_steps=200000)
         fs = SimFS(sim, [root], chunk=1 << 20, copy_bufsize=1 << 20, yield_stat=False)
         argv = ["hed_validator", root] + (["--check-for-warnings"] if warn else []) + list(sc.get("cli_opts", []))
